@@ -3,6 +3,7 @@ package gombokgen
 import (
 	_ "embed"
 	"fmt"
+	"regexp"
 	"sort"
 	"strconv"
 	"strings"
@@ -13,6 +14,9 @@ var libSrc string
 
 //go:embed lib2.go.txt
 var lib2Src string
+
+//go:embed lib3.go.txt
+var lib3Src string
 
 const ModName = "scratch"
 
@@ -32,6 +36,11 @@ func LibSource(pkg string) string {
 
 func Lib2Source(pkg string) string {
 	return strings.Replace(lib2Src, "package PKGNAME", "package "+pkg, 1)
+}
+
+// Lib3Source: rendering of values for the `(derive …)` operation lines of oracle_derive (C08).
+func Lib3Source(pkg string) string {
+	return strings.Replace(lib3Src, "package PKGNAME", "package "+pkg, 1)
 }
 
 // GoMod is the go.mod of the scratch module.
@@ -125,6 +134,13 @@ func (p *Package) TypesSource() string {
 	}
 	if imports["dep"] {
 		sb.WriteString("\t\"" + ModName + "/dep\"\n")
+	}
+	// aliased imports: the generated code must import them under the identifier the declaration uses
+	if imports["stdtime"] {
+		sb.WriteString("\tstdtime \"time\"\n")
+	}
+	if imports["dp"] {
+		sb.WriteString("\tdp \"" + ModName + "/dep\"\n")
 	}
 	sb.WriteString(")\n\nvar _ fp.Unit\n\n")
 	if p.OverrideMyInt && len(dp) > 0 {
@@ -246,6 +262,8 @@ func (p *Package) refInst(class string, t *Ty, st *Struct) string {
 		}
 	case "pt":
 		return "dep." + ci.Prefix + "Pt()"
+	case "index":
+		return "zzRef" + ci.Prefix + "Index"
 	}
 	switch class {
 	case "eq":
@@ -358,6 +376,242 @@ func (p *Package) refInst(class string, t *Ty, st *Struct) string {
 	return "nil"
 }
 
+// ---------------------------------------------------------------------------------- instance expressions (C08, oracle_derive)
+
+// DeriveClasses: the classes whose derived instances are compared with the Lean model op by op.
+var DeriveClasses = map[string]bool{"eq": true, "ord": true, "hash": true, "monoid": true, "clone": true}
+
+// DeriveSpecSexp: the declaration as the oracle reads it: field names (applicability is decided by the
+// model from the name / embedded-empty flags), field types as written (type parameters by name).
+func (s *Struct) DeriveSpecSexp() string {
+	var sb strings.Builder
+	sb.WriteString("(spec " + s.Name + " (origin " + s.Origin + ") (params")
+	for _, p := range s.TParams {
+		sb.WriteString(" " + p.Name)
+	}
+	sb.WriteString(") (fields")
+	flag := func(b bool, y, n string) string {
+		if b {
+			return y
+		}
+		return n
+	}
+	for _, f := range s.Fields {
+		sb.WriteString(" (f " + f.Name + " " + escAtom(f.Ty.Src(nil)) + " " + flag(f.Embedded, "emb", "plain") + " " + flag(f.Empty, "empty", "nonempty") + ")")
+	}
+	sb.WriteString("))")
+	return sb.String()
+}
+
+// ptSpecSexp: dep.Pt (DepSource): `type Pt struct { x int; y string }`
+// indexSpecSexp: ZzIndex (lib.go.txt)
+const indexSpecSexp = "(spec ZzIndex (origin 0 0 0 0) (params) (fields (f Keys []string plain nonempty) (f byName map[string]int plain nonempty) (f Ptr *int plain nonempty) (f n int plain nonempty)))"
+
+const ptSpecSexp = "(spec Pt (origin 0 0 0 0) (params) (fields (f x int plain nonempty) (f y string plain nonempty)))"
+
+func prim(name string) string { return "(prim " + escAtom(name) + ")" }
+
+// intKindOf: the arithmetic of the integer kinds (named ints are int)
+func intKindOf(k string) string {
+	switch k {
+	case "int8":
+		return "int8"
+	case "uint64":
+		return "uint64"
+	}
+	return "int64"
+}
+
+func isIntKind(k string) bool {
+	switch k {
+	case "int", "int8", "int64", "uint64", "myint", "money", "dur":
+		return true
+	}
+	return false
+}
+
+// instExpr: the instance the documented resolution order selects for a field type (working package,
+// then the type's own package, then the derive package), as an expression of the Lean model
+// (FpVerif.Derive.Inst).  st is the struct the type occurs in; top is the struct whose instance is
+// being described: a reference to it is `self`, its own type parameters are `(tparam T)` (the
+// dictionary the generic instance function receives), the parameters of a nested generic struct are
+// replaced by the instances of their instantiation.
+func (p *Package) instExpr(class string, t *Ty, st *Struct, top *Struct) string {
+	rec := func(e *Ty) string { return p.instExpr(class, e, st, top) }
+	switch t.K {
+	case "tparam":
+		if st == top {
+			return "(tparam " + t.Name + ")"
+		}
+		return p.instExpr(class, t.inst(st), st, top)
+	case "struct":
+		if t.Ref == top {
+			return "self"
+		}
+		return p.structInstExpr(class, t.Ref, top)
+	case "myint":
+		if p.OverrideMyInt && class != "clone" {
+			return prim(classInfo[class].Prefix + "MyInt")
+		}
+	case "money":
+		if class == "eq" && p.OverrideMoney != "" {
+			return prim("EqMoney") // the local instance (EqMoney / EqDepMoney: a%7 == b%7)
+		}
+		if class != "clone" {
+			return prim("dep." + classInfo[class].Prefix + "Money")
+		}
+	case "pt":
+		if class == "eq" {
+			return "(struct " + ptSpecSexp + " (insts " + prim("eq.Given[int]") + " " + prim("eq.String") + "))"
+		}
+	case "opt":
+		return "(option " + rec(t.Elem) + ")"
+	case "index":
+		// ZzIndex has no declared instance: @fp.Derive(recursive=true) derives one over ALL its fields
+		switch class {
+		case "eq":
+			return "(struct " + indexSpecSexp + " (insts (slice " + prim("eq.String") + ") (gomap " + prim("eq.Given[int]") + ") (ptr " + prim("eq.Given[int]") + ") " + prim("eq.Given[int]") + "))"
+		case "clone":
+			return "(struct " + indexSpecSexp + " (insts (slice " + prim("clone.Given") + ") (gomap " + prim("clone.Given") + ") (ptr " + prim("clone.Given") + ") " + prim("clone.Given") + "))"
+		}
+	}
+	switch class {
+	case "eq":
+		switch t.K {
+		case "string":
+			return prim("eq.String")
+		case "mystr":
+			return prim("eq.Given[string]")
+		case "time":
+			return prim("eq.Time")
+		case "bytes":
+			return prim("eq.Bytes")
+		case "bool":
+			return prim("eq.Given[bool]")
+		case "slice":
+			return "(slice " + rec(t.Elem) + ")"
+		case "seq":
+			return "(seq " + rec(t.Elem) + ")"
+		case "map":
+			return "(gomap " + rec(t.Elem) + ")"
+		case "ptr":
+			return "(ptr " + rec(t.Elem) + ")"
+		case "tuple2":
+			return "(tuple2 " + rec(t.Elem) + " " + prim("eq.String") + ")"
+		}
+		if isIntKind(t.K) {
+			return prim("eq.Given[int]")
+		}
+	case "ord":
+		switch t.K {
+		case "string", "mystr":
+			return prim("ord.Given[string]")
+		case "time":
+			return prim("ord.Time")
+		case "slice":
+			return "(slice " + rec(t.Elem) + ")"
+		case "seq":
+			return "(seq " + rec(t.Elem) + ")"
+		case "ptr":
+			return "(ptr " + rec(t.Elem) + ")"
+		case "tuple2":
+			return "(tuple2 " + rec(t.Elem) + " " + prim("ord.Given[string]") + ")"
+		}
+		if isIntKind(t.K) {
+			return prim("ord.Given[int]")
+		}
+	case "hash":
+		switch t.K {
+		case "string":
+			return prim("hash.String")
+		case "bytes":
+			return prim("hash.Bytes")
+		case "slice":
+			return "(slice " + rec(t.Elem) + ")"
+		case "seq":
+			return "(seq " + rec(t.Elem) + ")"
+		case "ptr":
+			return "(ptr " + rec(t.Elem) + ")"
+		case "tuple2":
+			return "(tuple2 " + rec(t.Elem) + " " + prim("hash.String") + ")"
+		}
+		if isIntKind(t.K) {
+			return prim("hash.Number")
+		}
+	case "monoid":
+		switch t.K {
+		case "string":
+			return prim("monoid.String")
+		case "mystr":
+			return prim("monoid.Sum[string]")
+		case "slice", "seq":
+			return prim("monoid.Merge") // MergeSlice[T]() / MergeSeq[T](): no element instance
+		case "map":
+			return prim("monoid.MergeGoMap")
+		case "tuple2":
+			return "(tuple2 " + rec(t.Elem) + " " + prim("monoid.String") + ")"
+		}
+		if isIntKind(t.K) {
+			return prim("monoid.Product[" + intKindOf(t.K) + "]")
+		}
+	case "clone":
+		switch t.K {
+		case "slice":
+			return "(slice " + rec(t.Elem) + ")"
+		case "bytes":
+			return "(slice " + prim("clone.Given") + ")"
+		case "seq":
+			return "(seq " + rec(t.Elem) + ")"
+		case "map":
+			return "(gomap " + rec(t.Elem) + ")"
+		case "ptr":
+			return "(ptr " + rec(t.Elem) + ")"
+		case "tuple2":
+			return "(tuple2 " + rec(t.Elem) + " " + prim("clone.Given") + ")"
+		}
+		return prim("clone.Given")
+	}
+	return prim("unsupported:" + class + ":" + t.K)
+}
+
+var reInstHead = regexp.MustCompile(`\((prim [^()\s]+|option|seq|slice|ptr|gomap|tuple2|struct|tparam)|\bself\b`)
+
+// instHeads counts the node kinds of an instance expression (histogram)
+func instHeads(sexp string) map[string]int {
+	out := map[string]int{}
+	for _, m := range reInstHead.FindAllStringSubmatch(sexp, -1) {
+		k := m[1]
+		if k == "" {
+			k = "self"
+		}
+		out[strings.TrimPrefix(k, "prim ")]++
+	}
+	return out
+}
+
+// structInstExpr: the derived instance of struct s as a component (its declaration + its components)
+func (p *Package) structInstExpr(class string, s *Struct, top *Struct) string {
+	parts := []string{}
+	for _, i := range s.Applicable() {
+		parts = append(parts, p.instExpr(class, s.Fields[i].Ty, s, top))
+	}
+	return "(struct " + s.DeriveSpecSexp() + " (insts " + strings.Join(parts, " ") + "))"
+}
+
+// DeriveInstsSexp: "(insts I…) (pinsts (T I)…)" of the top-level instance of s
+func (p *Package) DeriveInstsSexp(class string, s *Struct) string {
+	parts := []string{}
+	for _, i := range s.Applicable() {
+		parts = append(parts, p.instExpr(class, s.Fields[i].Ty, s, s))
+	}
+	pparts := []string{}
+	for _, tp := range s.usedParams(class) {
+		// the argument the driver passes to the generic instance function (derivedInst)
+		pparts = append(pparts, "("+tp.Name+" "+p.instExpr(class, tp.InstTy, nil, s)+")")
+	}
+	return "(insts " + strings.Join(parts, " ") + ") (pinsts " + strings.Join(pparts, " ") + ")"
+}
+
 // ordLawful: every Ord component is a strict total order (ord.Seq / ord.Slice are not: they are the
 // subject of another property, so the order LAWS are not demanded of structs that contain them;
 // the field-wise composition still is)
@@ -460,7 +714,9 @@ func (p *Package) DriverSource(perStruct int) string {
 	if p.UsesDep {
 		w.WriteString("\t" + q(ModName+"/dep") + "\n")
 	}
+	w.WriteString("\tstdtime \"time\"\n\tdp " + q(ModName+"/dep") + "\n")
 	w.WriteString(")\n\n")
+	w.WriteString("var _ stdtime.Duration\nvar _ dp.Money\n")
 	if p.UsesDep {
 		w.WriteString("var _ dep.Money\n")
 	}
@@ -501,6 +757,22 @@ func (p *Package) emitStruct(w *strings.Builder, s *Struct) {
 		fmt.Fprintf(w, "type %s = %sMutable%s\n", M, s.Name, s.InstArgs())
 	}
 	fmt.Fprintf(w, "\nconst zzDecl_%s = %s\n\n", s.Name, q(fmt.Sprintf("//gombokrun seed=%s n=%s perpkg=%s samples=%s struct=%s\n", originPart(s.Origin, 0), originPart(s.Origin, 1), originPart(s.Origin, 2), originPart(s.Origin, 3), s.Name)+s.DeclWithDerives()))
+	// the declaration and the resolved component instances as oracle_derive reads them (C08)
+	if !s.RiskyRecursion() {
+		emitted := false
+		for _, d := range s.Derives {
+			if DeriveClasses[d.Class] {
+				if !emitted {
+					fmt.Fprintf(w, "const zzDSpec_%s = %s\n", s.Name, q(s.DeriveSpecSexp()))
+					emitted = true
+				}
+				fmt.Fprintf(w, "const zzDInsts_%s_%s = %s\n", s.Name, d.Class, q(p.DeriveInstsSexp(d.Class, s)))
+			}
+		}
+		if emitted {
+			w.WriteString("\n")
+		}
+	}
 	// field pointers
 	fmt.Fprintf(w, "func zzFP_%s(p *%s) []any {\n\treturn []any{", s.Name, T)
 	for i, f := range s.Fields {
@@ -576,6 +848,33 @@ func (p *Package) emitStruct(w *strings.Builder, s *Struct) {
 		k++
 	}
 	w.WriteString("\t}\n}\n\n")
+	// the same among the first applicable fields only: the derived Ord of a wide struct needs time
+	// exponential in the number of fields that FOLLOW the first difference (every ord.TupleN level is
+	// wrapped in ord.New, whose Compare evaluates the less function in both directions), so near-equal
+	// values of a 20-field struct must not differ at the end
+	if len(keys) > ordFrontFields {
+		fmt.Fprintf(w, "func zzMutateFront_%s(r *zzRng, x *%s) {\n\tswitch r.Intn(%d) {\n", s.Name, T, ordFrontFields)
+		k := 0
+		for _, f := range s.Fields {
+			if !f.Applicable() {
+				continue
+			}
+			if k < ordFrontFields {
+				fmt.Fprintf(w, "\tcase %d:\n\t\tx.%s = (%s)(r)\n", k, f.Name, f.Ty.GenExpr(s))
+			}
+			k++
+		}
+		w.WriteString("\t}\n}\n\n")
+	}
+	// regenerate every non-applicable field (values that differ only where no instance may look)
+	fmt.Fprintf(w, "func zzMutateNA_%s(r *zzRng, x *%s) {\n", s.Name, T)
+	for _, f := range s.Fields {
+		if f.Applicable() || f.Blank() {
+			continue
+		}
+		fmt.Fprintf(w, "\tx.%s = (%s)(r)\n", f.Name, f.Ty.GenExpr(s))
+	}
+	w.WriteString("}\n\n")
 
 	// ------------------------------------------------------------ the driver
 	fmt.Fprintf(w, "func zzDrive_%s(r *zzRng, out *zzOut, n int) {\n", s.Name)
@@ -589,6 +888,18 @@ func (p *Package) emitStruct(w *strings.Builder, s *Struct) {
 	}
 	for _, d := range s.Derives {
 		fmt.Fprintf(w, "\tout.Hist[%s]++\n", q("derive:"+d.Class))
+		if DeriveClasses[d.Class] && !s.RiskyRecursion() {
+			// which component instances the derived instance is built from (input distribution of C08)
+			heads := instHeads(p.DeriveInstsSexp(d.Class, s))
+			keys := []string{}
+			for k := range heads {
+				keys = append(keys, k)
+			}
+			sort.Strings(keys)
+			for _, k := range keys {
+				fmt.Fprintf(w, "\tout.Hist[%s] += %d\n", q("inst:"+k), heads[k])
+			}
+		}
 	}
 	for _, f := range s.Fields {
 		vis := "private"
@@ -615,7 +926,7 @@ func (p *Package) emitStruct(w *strings.Builder, s *Struct) {
 		tm = "reflect.TypeOf((*" + M + ")(nil))"
 	}
 	fmt.Fprintf(w, "\tout.Case(\"(methods \"+spec+\")\", func() string {\n\t\treturn \"T:\" + zzMethodNames(reflect.TypeOf((*%s)(nil))) + \"|B:\" + zzMethodNames(%s) + \"|M:\" + zzMethodNames(%s) + \"|MF:\" + zzMutableFields(%s)\n\t})\n", T, tb, tm, tm)
-	fmt.Fprintf(w, "\tfor k := 0; k < n; k++ {\n\t\tx, b, c := zzGen_%s(r), zzGen_%s(r), zzGen_%s(r)\n\t\tif k == 0 {\n\t\t\tx = z\n\t\t}\n\t\tif k == 1 {\n\t\t\tb = z\n\t\t}\n", s.Name, s.Name, s.Name)
+	fmt.Fprintf(w, "\tfor k := 0; k < n; k++ {\n\t\trb := *r // the generator state x is drawn from: drawing again from a copy gives an equal value with its own storage\n\t\t_ = rb\n\t\tx, b, c := zzGen_%s(r), zzGen_%s(r), zzGen_%s(r)\n\t\tif k == 0 {\n\t\t\tx = z\n\t\t}\n\t\tif k == 1 {\n\t\t\tb = z\n\t\t}\n", s.Name, s.Name, s.Name)
 	fp := func(v string) string { return "zzFP_" + s.Name + "(&" + v + ")" }
 	// maps
 	if hasKind(mt, "asMap") {
@@ -786,6 +1097,27 @@ func (p *Package) emitStruct(w *strings.Builder, s *Struct) {
 func (p *Package) emitJSON(w *strings.Builder, s *Struct) {
 	T := s.tT()
 	fp := func(v string) string { return "zzFP_" + s.Name + "(&" + v + ")" }
+	// a nil pointer / slice / map / chan / func / interface-literal and an empty string field without a
+	// json tag of its own is OMITTED from the encoding (gombok writes `json:"name,omitempty"` on the
+	// Mutable twin for exactly these kinds; it writes it for Option fields too, but encoding/json never
+	// omits a struct value: None is emitted as null - the tag itself is compared by the (methods …) line)
+	if !contains(s.UserT, "MarshalJSON") {
+		first := true
+		for _, f := range s.Fields {
+			if !f.Applicable() || f.Embedded || strings.Contains(f.Tag, "json") || !f.Ty.Nilable() {
+				continue
+			}
+			if first {
+				w.WriteString("\t\tif k == 0 {\n\t\t\tb0, e0 := json.Marshal(z)\n")
+				first = false
+			}
+			fmt.Fprintf(w, "\t\t\tout.Hist[%s]++\n", q("json:omitted-when-nil:"+f.Ty.K))
+			fmt.Fprintf(w, "\t\t\tout.Check(\"C15.struct-nil-field-omitted\", decl, e0 != nil || !zzJSONMember(b0, %s), func() string { return fmt.Sprintf(\"the zero value encodes as %%s: member %%q (a nil/empty %s) is not omitted\", b0, %s) })\n", q(f.Name), f.Ty.K, q(f.Name))
+		}
+		if !first {
+			w.WriteString("\t\t}\n")
+		}
+	}
 	fmt.Fprintf(w, "\t\tfor _, faithful := range []bool{true, false} {\n\t\t\tr.Faithful = faithful\n\t\t\txj := zzGen_%s(r)\n\t\t\tr.Faithful = false\n\t\t\tif k == 0 && faithful {\n\t\t\t\txj = z\n\t\t\t}\n", s.Name)
 	w.WriteString("\t\t\tb1, e1 := json.Marshal(xj)\n\t\t\tb2, e2 := json.Marshal(xj.AsMutable())\n")
 	w.WriteString("\t\t\tout.Check(\"C15.struct-marshal-is-mutable\", decl, (e1 == nil) == (e2 == nil) && (e1 != nil || bytes.Equal(b1, b2)), func() string { return fmt.Sprintf(\"value %s: struct -> %s (%v), mutable -> %s (%v)\", zzRecDisp(" + fp("xj") + "), b1, e1, b2, e2) })\n")
@@ -798,21 +1130,34 @@ func (p *Package) emitJSON(w *strings.Builder, s *Struct) {
 		fmt.Fprintf(w, "\t\t\t\ty0 := z\n\t\t\t\terr0 := json.Unmarshal(b1, &y0)\n\t\t\t\tout.Check(\"C15.struct-roundtrip-fields\", decl, err0 == nil && zzEqS(zzDisps(%s), zzMerge(zzDisps(%s), zzDisps(%s), zzApp_%s)), func() string { return fmt.Sprintf(\"x=%%s json=%%s err=%%v got=%%s\", zzRecDisp(%s), b1, err0, zzRecDisp(%s)) })\n\t\t\t}\n", fp("y0"), fp("xj"), fp("z"), s.Name, fp("xj"), fp("y0"))
 	}
 	// arbitrary bytes
-	fmt.Fprintf(w, "\t\t\tfor g := 0; g < 3; g++ {\n\t\t\t\tgb := zzJSONGarbage(r, b1)\n\t\t\t\tfor mode := 0; mode < 3; mode++ {\n\t\t\t\t\tt := c\n\t\t\t\t\tbefore := zzShowI(&t)\n\t\t\t\t\tvar err error\n\t\t\t\t\tpanicked := zzPanics(func() {\n\t\t\t\t\t\tswitch mode {\n\t\t\t\t\t\tcase 0:\n\t\t\t\t\t\t\terr = json.Unmarshal(gb, &t)\n\t\t\t\t\t\tcase 1:\n\t\t\t\t\t\t\terr = t.UnmarshalJSON(gb)\n\t\t\t\t\t\tcase 2:\n\t\t\t\t\t\t\terr = (*%s)(nil).UnmarshalJSON(gb)\n\t\t\t\t\t\t\tif err == nil {\n\t\t\t\t\t\t\t\tpanic(\"nil receiver: no error\")\n\t\t\t\t\t\t\t}\n\t\t\t\t\t\t}\n\t\t\t\t\t})\n", T)
+	fmt.Fprintf(w, "\t\t\tfor g := 0; g < 3; g++ {\n\t\t\t\tgb := zzJSONGarbage(r, b1)\n\t\t\t\tif g == 0 {\n\t\t\t\t\t// well-formed JSON with ONE member of the wrong type (the decoder fails after decoding the others)\n\t\t\t\t\tif te := zzJSONTypeError(r, b1); te != nil {\n\t\t\t\t\t\tgb = te\n\t\t\t\t\t\tout.Hist[\"json:one-type-error\"]++\n\t\t\t\t\t}\n\t\t\t\t}\n\t\t\t\tfor mode := 0; mode < 3; mode++ {\n\t\t\t\t\tt := c\n\t\t\t\t\tbefore := zzShowI(&t)\n\t\t\t\t\tbeforeSh := zzShallowI(&t)\n\t\t\t\t\tvar err error\n\t\t\t\t\tpanicked := zzPanics(func() {\n\t\t\t\t\t\tswitch mode {\n\t\t\t\t\t\tcase 0:\n\t\t\t\t\t\t\terr = json.Unmarshal(gb, &t)\n\t\t\t\t\t\tcase 1:\n\t\t\t\t\t\t\terr = t.UnmarshalJSON(gb)\n\t\t\t\t\t\tcase 2:\n\t\t\t\t\t\t\terr = (*%s)(nil).UnmarshalJSON(gb)\n\t\t\t\t\t\t\tif err == nil {\n\t\t\t\t\t\t\t\tpanic(\"nil receiver: no error\")\n\t\t\t\t\t\t\t}\n\t\t\t\t\t\t}\n\t\t\t\t\t})\n", T)
 	w.WriteString("\t\t\t\t\tout.Check(\"C15.struct-unmarshal-panics\", decl, panicked == \"\", func() string { return fmt.Sprintf(\"input %q mode %d: %s\", gb, mode, panicked) })\n")
-	w.WriteString("\t\t\t\t\tout.Check(\"C15.struct-unmarshal-error-keeps-target\", decl, err == nil || zzShowI(&t) == before, func() string { return fmt.Sprintf(\"input %q mode %d err %v: target %s -> %s\", gb, mode, err, before, zzShowI(&t)) })\n")
+	// an error must leave the target alone.  Two grades: the target's OWN memory (scalar fields, the
+	// pointer / slice header / map reference it holds) - and what is reachable through them (the generated
+	// UnmarshalJSON decodes into a shallow copy, so a failing decode can write through shared storage).
+	w.WriteString("\t\t\t\t\tout.Check(\"C15.struct-unmarshal-error-keeps-target\", decl, err == nil || zzShallowI(&t) == beforeSh, func() string { return fmt.Sprintf(\"input %q mode %d err %v: the target's own fields changed: %s -> %s\", gb, mode, err, before, zzShowI(&t)) })\n")
+	w.WriteString("\t\t\t\t\tout.Check(\"C15.struct-unmarshal-error-writes-shared-storage\", decl, err == nil || zzShallowI(&t) != beforeSh || zzShowI(&t) == before, func() string { return fmt.Sprintf(\"input %q mode %d err %v: storage reachable from the target changed: %s -> %s\", gb, mode, err, before, zzShowI(&t)) })\n")
 	// unmarshal = decode into Mutable then AsImmutable
 	// (evaluated on a zero target: whether keys absent from the input keep the target's old values is not part of C15)
 	w.WriteString("\t\t\t\t\tif mode == 0 {\n\t\t\t\t\t\tt = z\n\t\t\t\t\t\terr = json.Unmarshal(gb, &t)\n\t\t\t\t\t\tmu := z.AsMutable()\n\t\t\t\t\t\terr2 := json.Unmarshal(gb, &mu)\n\t\t\t\t\t\tim := mu.AsImmutable()\n\t\t\t\t\t\tout.Check(\"C15.struct-unmarshal-is-mutable\", decl, (err == nil) == (err2 == nil) && (err != nil || zzShowI0(&t) == zzShowI0(&im)), func() string { return fmt.Sprintf(\"input %q: struct err %v value %s, via mutable err %v value %s\", gb, err, zzShowI0(&t), err2, zzShowI0(&im)) })\n\t\t\t\t\t}\n")
 	w.WriteString("\t\t\t\t}\n\t\t\t}\n\t\t}\n")
 }
 
+// ordFrontFields: near-equal values handed to a derived Ord differ within the first so many fields
+const ordFrontFields = 10
+
 func (p *Package) emitDerive(w *strings.Builder, s *Struct, d Derive) {
 	T := s.tT()
 	ins := p.derivedInst(d.Class, s)
 	app := s.Applicable()
-	fmt.Fprintf(w, "\t\tif pn := zzPanics(func() { // derived %s\n\t\t\tins := %s\n\t\t\tvar a1, a2, a3 %s\n\t\t\tswitch k %% 4 {\n\t\t\tcase 0:\n\t\t\t\ta1, a2, a3 = x, b, c\n\t\t\tcase 1:\n\t\t\t\ta1, a2, a3 = x, x, x\n\t\t\t\tzzMutate_%s(r, &a2)\n\t\t\t\tzzMutate_%s(r, &a3)\n\t\t\tcase 2:\n\t\t\t\ta1, a2, a3 = x, x, b\n\t\t\t\tzzMutate_%s(r, &a3)\n\t\t\tdefault:\n\t\t\t\ta1, a2, a3 = x, b, b\n\t\t\t\tzzMutate_%s(r, &a2)\n\t\t\t}\n\t\t\t_, _, _ = a1, a2, a3\n", d.Class, ins, T, s.Name, s.Name, s.Name, s.Name)
+	mut := "zzMutate_" + s.Name
+	if d.Class == "ord" && len(app) > ordFrontFields {
+		mut = "zzMutateFront_" + s.Name
+	}
+	fmt.Fprintf(w, "\t\tif pn := zzPanics(func() { // derived %s\n\t\t\tins := %s\n\t\t\tvar a1, a2, a3 %s\n\t\t\tswitch k %% 6 {\n\t\t\tcase 0:\n\t\t\t\ta1, a2, a3 = x, b, c\n\t\t\tcase 1:\n\t\t\t\ta1, a2, a3 = x, x, x\n\t\t\t\t%s(r, &a2)\n\t\t\t\t%s(r, &a3)\n\t\t\tcase 2:\n\t\t\t\ta1, a2, a3 = x, x, b\n\t\t\t\t%s(r, &a3)\n\t\t\tcase 3:\n\t\t\t\ta1, a2, a3 = x, b, b\n\t\t\t\t%s(r, &a2)\n\t\t\tcase 4: // a2 differs from a1 only in the non-applicable fields, a3 from a2 in one applicable field\n\t\t\t\ta1, a2, a3 = x, x, x\n\t\t\t\tzzMutateNA_%s(r, &a2)\n\t\t\t\ta3 = a2\n\t\t\t\t%s(r, &a3)\n\t\t\tdefault: // a2 is a twin of a1: equal content, no storage in common (pointers, slices, maps are re-allocated)\n\t\t\t\trt := rb\n\t\t\t\ta1, a2 = x, zzGen_%s(&rt)\n\t\t\t\tif k == 0 {\n\t\t\t\t\ta2 = z\n\t\t\t\t}\n\t\t\t\ta3 = a2\n\t\t\t\t%s(r, &a3)\n\t\t\t}\n\t\t\t_, _, _ = a1, a2, a3\n", d.Class, ins, T, mut, mut, mut, mut, s.Name, mut, s.Name, mut)
 	fmt.Fprintf(w, "\t\t\tin := func() string { return fmt.Sprintf(\"a1=%%s a2=%%s a3=%%s\", zzShowI0(&a1), zzShowI0(&a2), zzShowI0(&a3)) }\n\t\t\t_ = in\n")
+	p.emitDeriveOp(w, s, d)
+	p.emitMapNearMiss(w, s, d)
 	ref := func(i int) string { return p.refInst(d.Class, s.Fields[i].Ty, s) }
 	switch d.Class {
 	case "eq", "hash", "ord":
@@ -866,6 +1211,63 @@ func (p *Package) emitDerive(w *strings.Builder, s *Struct, d Derive) {
 		w.WriteString("\t\t\tpn := zzPanics(func() { _ = ins.Show(a1) })\n\t\t\tout.Check(\"C08.show.panics\", decl, pn == \"\", func() string { return pn + \" \" + in() })\n")
 	}
 	fmt.Fprintf(w, "\t\t}); pn != \"\" {\n\t\t\tzzNormNil = false\n\t\t\tout.Check(%s, decl, false, func() string { return pn })\n\t\t}\n", q("C08."+d.Class+".panics"))
+}
+
+// emitMapNearMiss: for a derived Eq over a struct with a Go map field, two values whose maps have the
+// SAME length but DIFFERENT key sets, the entry missing on the other side holding the zero value
+// (`b[k]` without comma-ok reads a zero there): Eqv must be false both ways.
+func (p *Package) emitMapNearMiss(w *strings.Builder, s *Struct, d Derive) {
+	if d.Class != "eq" {
+		return
+	}
+	for _, i := range s.Applicable() {
+		f := s.Fields[i]
+		if f.Ty.K != "map" {
+			continue
+		}
+		app := "zzApp_" + s.Name
+		dv := func(v string) string { return "zzDVRec(zzFP_" + s.Name + "(&" + v + "), " + app + ")" }
+		fmt.Fprintf(w, "\t\t\t{\n\t\t\t\tn1, n2 := a1, a1\n\t\t\t\tn1.%s, n2.%s = zzMapNear(r, a1.%s, %s)\n\t\t\t\tn3 := n1\n", f.Name, f.Name, f.Name, f.Ty.Elem.GenExpr(s))
+		w.WriteString("\t\t\t\tout.Hist[\"deriveop:eq-map-near-miss\"]++\n")
+		fmt.Fprintf(w, "\t\t\t\tout.Case(\"(derive eq \"+zzDSpec_%s+\" \"+zzDInsts_%s_eq+\" \"+%s+\" \"+%s+\" \"+%s+\")\", func() string {\n", s.Name, s.Name, dv("n1"), dv("n2"), dv("n3"))
+		w.WriteString("\t\t\t\t\treturn \"xy=\" + zzTF(ins.Eqv(n1, n2)) + \" yx=\" + zzTF(ins.Eqv(n2, n1)) + \" yz=\" + zzTF(ins.Eqv(n2, n3)) + \" xz=\" + zzTF(ins.Eqv(n1, n3)) + \" xx=\" + zzTF(ins.Eqv(n1, n1))\n\t\t\t\t})\n")
+		w.WriteString("\t\t\t\tout.Check(\"C08.eq.map-key-sets\", decl, !ins.Eqv(n1, n2) && !ins.Eqv(n2, n1), func() string { return fmt.Sprintf(\"maps of equal length with different key sets: Eqv(%s, %s) = %v, Eqv(reversed) = %v\", zzShowI0(&n1), zzShowI0(&n2), ins.Eqv(n1, n2), ins.Eqv(n2, n1)) })\n\t\t\t}\n")
+		return
+	}
+}
+
+// emitDeriveOp: the `(derive CLASS SPEC INSTS PINSTS …)` operation line of oracle_derive and the
+// implementation's answer computed with the REAL generated instance `ins` on the triple a1, a2, a3.
+func (p *Package) emitDeriveOp(w *strings.Builder, s *Struct, d Derive) {
+	if !DeriveClasses[d.Class] {
+		return
+	}
+	app := "zzApp_" + s.Name
+	dv := func(v string) string { return "zzDVRec(zzFP_" + s.Name + "(&" + v + "), " + app + ")" }
+	head := fmt.Sprintf("\"(derive %s \" + zzDSpec_%s + \" \" + zzDInsts_%s_%s + \" \"", d.Class, s.Name, s.Name, d.Class)
+	fmt.Fprintf(w, "\t\t\tout.Hist[%s]++\n", q("deriveop:"+d.Class))
+	switch d.Class {
+	case "eq":
+		fmt.Fprintf(w, "\t\t\tout.Case(%s+%s+\" \"+%s+\" \"+%s+\")\", func() string {\n", head, dv("a1"), dv("a2"), dv("a3"))
+		w.WriteString("\t\t\t\treturn \"xy=\" + zzTF(ins.Eqv(a1, a2)) + \" yx=\" + zzTF(ins.Eqv(a2, a1)) + \" yz=\" + zzTF(ins.Eqv(a2, a3)) + \" xz=\" + zzTF(ins.Eqv(a1, a3)) + \" xx=\" + zzTF(ins.Eqv(a1, a1))\n\t\t\t})\n")
+	case "ord":
+		fmt.Fprintf(w, "\t\t\tout.Case(%s+%s+\" \"+%s+\" \"+%s+\")\", func() string {\n", head, dv("a1"), dv("a2"), dv("a3"))
+		w.WriteString("\t\t\t\treturn \"eqv:xy=\" + zzTF(ins.Eqv(a1, a2)) + \" yz=\" + zzTF(ins.Eqv(a2, a3)) + \" xx=\" + zzTF(ins.Eqv(a1, a1)) +\n")
+		w.WriteString("\t\t\t\t\t\" less:xy=\" + zzTF(ins.Less(a1, a2)) + \" yx=\" + zzTF(ins.Less(a2, a1)) + \" yz=\" + zzTF(ins.Less(a2, a3)) + \" zy=\" + zzTF(ins.Less(a3, a2)) +\n")
+		w.WriteString("\t\t\t\t\t\" xz=\" + zzTF(ins.Less(a1, a3)) + \" zx=\" + zzTF(ins.Less(a3, a1)) + \" xx=\" + zzTF(ins.Less(a1, a1))\n\t\t\t})\n")
+	case "hash":
+		fmt.Fprintf(w, "\t\t\tout.Case(%s+%s+\" \"+%s+\" \"+%s+\")\", func() string {\n", head, dv("a1"), dv("a2"), dv("a3"))
+		w.WriteString("\t\t\t\treturn \"eqv:xy=\" + zzTF(ins.Eqv(a1, a2)) + \" yz=\" + zzTF(ins.Eqv(a2, a3)) + fmt.Sprintf(\" hash:x=%d y=%d z=%d\", ins.Hash(a1), ins.Hash(a2), ins.Hash(a3))\n\t\t\t})\n")
+	case "monoid":
+		fmt.Fprintf(w, "\t\t\tout.Case(%s+%s+\" \"+%s+\" \"+%s+\" \"+%s+\")\", func() string {\n", head, dv("z"), dv("a1"), dv("a2"), dv("a3"))
+		w.WriteString("\t\t\t\tme := ins.Empty()\n\t\t\t\tmxy := ins.Combine(a1, a2)\n\t\t\t\tml := ins.Combine(mxy, a3)\n\t\t\t\tmr := ins.Combine(a1, ins.Combine(a2, a3))\n\t\t\t\tmex := ins.Combine(me, a1)\n\t\t\t\tmxe := ins.Combine(a1, me)\n")
+		fmt.Fprintf(w, "\t\t\t\treturn \"empty=\" + %s + \" xy=\" + %s + \" xy_z=\" + %s + \" x_yz=\" + %s + \" ex=\" + %s + \" xe=\" + %s\n\t\t\t})\n", dv("me"), dv("mxy"), dv("ml"), dv("mr"), dv("mex"), dv("mxe"))
+	case "clone":
+		hv := func(v, tab string) string { return "zzHVRec(zzFP_" + s.Name + "(&" + v + "), " + app + ", " + tab + ")" }
+		fmt.Fprintf(w, "\t\t\ttab := zzNewAddrTab()\n\t\t\txs := %s\n", hv("a1", "tab"))
+		fmt.Fprintf(w, "\t\t\tout.Case(%s+%s+\" \"+xs+\")\", func() string {\n", head, hv("z", "zzNewAddrTab()"))
+		fmt.Fprintf(w, "\t\t\t\tdcl := ins.Clone(a1)\n\t\t\t\ttab.out = true\n\t\t\t\treturn \"clone=\" + %s\n\t\t\t})\n", hv("dcl", "tab"))
+	}
 }
 
 func max(a, b int) int {
